@@ -58,7 +58,7 @@ def bor(a, b):
         elif x == y:
             out.append(x)
         else:
-            raise Unknown("or of overlapping symbolic fields")
+            out.append(("!overlap", 0))  # two different fields or-ed onto one bit: data corruption, shows up as a mismatch
     return out
 
 
